@@ -1,5 +1,6 @@
 import LunarVerif.Base.Proto
 import LunarVerif.Spec.C11
+import LunarVerif.Spec.C11Glue
 /-! Driver for C11: `lvdriver_c11 run` (model outputs) / `lvdriver_c11 judge` (Spec on impl outputs).
 
 Op lines (answers):
@@ -8,6 +9,12 @@ Op lines (answers):
   update d=<label> ok=<0|1>                          → ok t=<ns> | err:haproxy
   advance d=<ns>                                     → t=<ns>
   stat                                               → pins=<n> vers=<n> pinq=<n> verq=<n>
+Level 2 (glue) cases start with `gcfg`:
+  gcfg d0=<label>                                    → ok
+  req id=<n> seq=<n>                                 → ver=<label|none>
+  resp id=<n> seq=<n> status=<n>                     → retry=<seconds|none>
+  reload d=<label> ok=<0|1>                          → ok | err:rejected
+  revert kind=<last|free>                            → ok
 -/
 open LunarVerif LunarVerif.Proto LunarVerif.C11
 
@@ -16,6 +23,7 @@ structure RunSt where
   cfg : Cfg := ⟨0, 0, 0⟩
   st : St := init ⟨0, 0, 0⟩ 0
   sch : Sched := { tick := 0 }
+  g : Option GSt := none
 
 def applyOps (cfg : Cfg) (s : St) (ops : List Op) : St := runSt cfg s ops
 
@@ -74,12 +82,51 @@ def runStep (s : RunSt) (line : String) : RunSt × String :=
   | ["stat"] =>
     if !s.ready then (s, "bad-op") else
     (s, s!"pins={s.st.pins.length} vers={s.st.versions.length} pinq={s.st.pinQ.length} verq={s.st.verQ.length}")
+  | ["gcfg", w] =>
+    match kvNat [w] "d0" with
+    | some d0 =>
+      let cfg : Cfg := ⟨30000000000, 30000000000, d0⟩
+      ({ ready := false, cfg := cfg, g := some (ginit cfg 0) }, "ok")
+    | none => (s, "bad-op")
+  | ["req", w1, w2] =>
+    match s.g, kvNat [w1] "id", kvNat [w2] "seq" with
+    | some g, some id, some seq =>
+      let (g', ev) := gstep s.cfg g (.req id seq)
+      let out := match ev with
+        | some (.req _ _ r) => s!"ver={fmtData r}"
+        | _ => "internal-error"
+      ({ s with g := some g' }, out)
+    | _, _, _ => (s, "bad-op")
+  | ["resp", w1, w2, w3] =>
+    match s.g, kvNat [w1] "id", kvNat [w2] "seq", kvNat [w3] "status" with
+    | some g, some id, some seq, some st =>
+      if st ≥ 1000 then (s, "bad-op") else
+      let (g', ev) := gstep s.cfg g (.resp id seq st)
+      let out := match ev with
+        | some (.resp _ _ _ r) => s!"retry={fmtData r}"
+        | _ => "internal-error"
+      ({ s with g := some g' }, out)
+    | _, _, _, _ => (s, "bad-op")
+  | ["reload", w1, w2] =>
+    match s.g, kvNat [w1] "d", kvNat [w2] "ok" with
+    | some g, some d, some okn =>
+      if okn > 1 then (s, "bad-op") else
+      ({ s with g := some (gstep s.cfg g (.reload d (okn == 1))).1 }, if okn == 1 then "ok" else "err:rejected")
+    | _, _, _ => (s, "bad-op")
+  | ["revert", w] =>
+    match s.g, kv [w] "kind" with
+    | some g, some kind =>
+      if kind == "last" || kind == "free" then ({ s with g := some (gstep s.cfg g .revert).1 }, "ok")
+      else (s, "bad-op")
+    | _, _ => (s, "bad-op")
   | _ => (s, "bad-op")
 
 structure JudgeSt where
   cfg : Option Cfg := none
   hist : List Ev := []   -- most recent first
   bad : Option String := none
+  gd0 : Option Nat := none
+  ghist : List GEv := []   -- most recent first
 
 def parseData (s : String) : Option (Option Nat) :=
   if s == "none" then some none else (s.toNat?).map some
@@ -102,7 +149,48 @@ def judgeStep (s : JudgeSt) (op out : String) : JudgeSt :=
     match kvNat [w1] "d", ows.head?, kvNat ows "t" with
     | some d, some "ok", some t => { s with hist := .update t d :: s.hist }
     | _, _, _ => { s with bad := some ("unparsable-output:" ++ pctEnc out) }
+  | ["gcfg", w] =>
+    match kvNat [w] "d0" with
+    | some d0 => if out == "ok" then { s with gd0 := some d0 } else { s with bad := some ("gcfg-failed:" ++ pctEnc out) }
+    | none => { s with bad := some "unparsable-gcfg" }
+  | ["req", w1, w2] =>
+    match kvNat [w1] "id", kvNat [w2] "seq", (kv (words out) "ver").bind parseData with
+    | some id, some seq, some r => { s with ghist := .req id seq r :: s.ghist }
+    | _, _, _ => { s with bad := some ("unparsable-output:" ++ pctEnc out) }
+  | ["resp", w1, w2, w3] =>
+    match kvNat [w1] "id", kvNat [w2] "seq", kvNat [w3] "status", (kv (words out) "retry").bind parseData with
+    | some id, some seq, some st, some r => { s with ghist := .resp id seq st r :: s.ghist }
+    | _, _, _, _ => { s with bad := some ("unparsable-output:" ++ pctEnc out) }
+  | ["reload", w1, _] =>
+    if out == "err:rejected" then s else
+    match kvNat [w1] "d" with
+    | some d => if out == "ok" then { s with ghist := .reload d :: s.ghist }
+                else { s with bad := some ("unparsable-output:" ++ pctEnc out) }
+    | none => { s with bad := some "unparsable-reload" }
+  | ["revert", _] => if out == "ok" then s else { s with bad := some ("revert-failed:" ++ pctEnc out) }
   | _ => s
+
+def fmtGEv : GEv → String
+  | .req id seq r => s!"req id={id} seq={seq} ver={fmtData r}"
+  | .resp id seq st r => s!"resp id={id} seq={seq} status={st} retry={fmtData r}"
+  | .reload k => s!"reload d={k}"
+
+def judgeGlue (d0 : Nat) (h : List GEv) : String :=
+  if gHoldsRev d0 h then "ok"
+  else
+    let rec find : List GEv → Option (GEv × List GEv)
+      | [] => none
+      | e :: older => match find older with
+        | some x => some x
+        | none => if gEventOk d0 e older then none else some (e, older)
+    match find h with
+    | some (.req id seq r, older) =>
+      s!"fail - glue-spec-violated-at {pctEnc (fmtGEv (.req id seq r))} request-must-see-policies={gLabel d0 older id} in-force-now={gCur d0 older}"
+    | some (.resp id seq st r, older) =>
+      let exp := (retryLens (gRetry d0 older) (gLabel d0 older id) id seq st).2
+      s!"fail - glue-spec-violated-at {pctEnc (fmtGEv (.resp id seq st r))} response-must-be-processed-with-policies={gLabel d0 older id} expected-retry={fmtData exp} in-force-now={gCur d0 older}"
+    | some (e, _) => s!"fail - glue-spec-violated-at {pctEnc (fmtGEv e)}"
+    | none => "fail - glue-spec-violated"
 
 def fmtEv : Ev → String
   | .lookup t x r => s!"lookup x={x} data={fmtData r} t={t}"
@@ -112,8 +200,11 @@ def judgeFinish (s : JudgeSt) : String :=
   match s.bad with
   | some b => s!"fail - {b}"
   | none =>
+    match s.gd0 with
+    | some d0 => judgeGlue d0 s.ghist
+    | none =>
     match s.cfg with
-    | none => if s.hist.isEmpty then "ok" else "fail - events-without-cfg"
+    | none => if s.hist.isEmpty && s.ghist.isEmpty then "ok" else "fail - events-without-cfg"
     | some cfg =>
       if holdsRev cfg.pinTTL cfg.d0 s.hist then "ok"
       else
